@@ -79,6 +79,17 @@ CHECKS.update({
             "DESIGN.md section 4, C02"),
 })
 
+CHECKS.update({
+    "C08": ("Hypothesis-generated ordering rulebooks with a reference rank oracle; permutation and idempotence laws; metamorphic deletion on the shipped corpus",
+            "Generated ordering rulebooks (disjoint siblings, pinned %order_reverse entries, %global entries, nesting) over generated "
+            "patching rulebooks and config pairs: sibling commands must respect the reference rank, a removal precedes the re-creation of "
+            "its key, sorting only permutes; order_config is a permutation per block, idempotent and stable for unmentioned rows on all "
+            "vendors; on the 192 shipped pairs deleting an unrelated row never changes the relative order of the rest. Exploration.",
+            "Trusted: reference rank in vf/props/c08.py (written from docs/usage/acl.rst); ties and cross-list pairs are not compared; "
+            "pinned removals are exempt from the removal-before-re-creation clause.",
+            "DESIGN.md section 4, C08"),
+})
+
 NOT_YET = {}
 
 
